@@ -33,7 +33,7 @@ RULE = (
     "path, an extensionless name, a name with a space / non-ASCII letters, or a directory holding __main__.hy; MODULE is a plain name, a hyphenated name "
     "(docs/cli.rst: mangled), pkg.mod, a hyphenated pkg.mod, or a package with __main__.hy. Each mode runs as a subprocess of the tree's hy entry point in "
     "a fresh scratch directory. Oracle: (absolute, per mode) every reported sys.argv[1:] == ARGS and sys.argv[0] == what CPython documents for the "
-    "equivalent python invocation ('-c'; the script path as given; '-'; the full path of the module file); (relative, every mode against -c) stdout "
+    "equivalent python invocation ('-c'; the script path as given; '-'; the full path of the module file); (relative, every mode against a reference mode: the first of the largest group of agreeing modes, normally -c) stdout "
     "without the report lines, exit status, and the last line of stderr are identical. A mode that never reports argv is a failure of that mode. "
     "Non-trivial = at least one ARG and the -c run printed a report plus at least one other line; distinct by the whole case"
 )
@@ -211,7 +211,7 @@ def run_modes(case, d, modes, pool):
         ob = fut.result()
         ob["expect_argv0"] = argv0
         ob["cwd"] = d
-        ob["cmd"] = ["hy"] + [w if w != case["src"] else "<CODE>" for w in words]
+        ob["cmd"] = ["hy"] + [w.replace(case["src"], "<CODE>") if case["src"] else w for w in words]
         out[m] = ob
     return out
 
@@ -350,20 +350,35 @@ def judge(case, obs):
                 dict(cmd=ob["cmd"], expected=ob["expect_argv0"], got=got0, layout=kind, cwd=ob.get("cwd")),
                 [m],
             ))
-    ref = usable.get("c")
-    if ref is not None:
+    # relative part: every mode against a reference mode.  The reference is the first mode (in MODES order) of the largest group of modes that
+    # agree with each other, so that one broken mode is named as the odd one out; a replay case names its reference explicitly.
+    sig = {m: (usable[m]["_rest"], usable[m]["status"], last_line(usable[m]["stderr"])) for m in MODES if m in usable}
+    rm = case.get("ref")
+    if rm not in sig:
+        rm = None
+        best = 0
         for m in MODES:
-            if m == "c" or m not in usable:
+            if m in sig:
+                n = sum(1 for o in sig if sig[o] == sig[m])
+                if n > best:
+                    rm, best = m, n
+    if rm is not None:
+        ref = usable[rm]
+        for m in MODES:
+            if m == rm or m not in usable:
                 continue
             ob = usable[m]
-            if not ob["_reports"] and not ref["_reports"]:
-                pass  # both dead: already reported per mode; still compare what they printed
-            if ob["_rest"] != ref["_rest"]:
-                fails.append((m + "-vs-c:stdout-differs", dict(cmd=ob["cmd"], c=tail(ref["_rest"]), other=tail(ob["_rest"]), stderr_c=tail(ref["stderr"], 300), stderr_other=tail(ob["stderr"], 300)), ["c", m]))
-            if ob["status"] != ref["status"]:
-                fails.append((m + "-vs-c:exit-status-differs", dict(cmd=ob["cmd"], c=ref["status"], other=ob["status"], stderr_c=tail(ref["stderr"], 300), stderr_other=tail(ob["stderr"], 300)), ["c", m]))
-            if last_line(ob["stderr"]) != last_line(ref["stderr"]):
-                fails.append((m + "-vs-c:last-stderr-line-differs", dict(cmd=ob["cmd"], c=last_line(ref["stderr"]), other=last_line(ob["stderr"])), ["c", m]))
+            both = sorted([rm, m], key=MODES.index)
+            for i, what in enumerate(("stdout-differs", "exit-status-differs", "last-stderr-line-differs")):
+                a, b = sig[rm][i], sig[m][i]
+                if a != b:
+                    if i == 0:
+                        a, b = tail(a), tail(b)
+                    fails.append((
+                        "%s-vs-%s:%s" % (m, rm, what),
+                        {"cmd": ob["cmd"], "cmd_reference": ref["cmd"], rm: a, m: b, "stderr_" + rm: tail(ref["stderr"], 300), "stderr_" + m: tail(ob["stderr"], 300)},
+                        both + ["ref=" + rm],
+                    ))
     return fails
 
 
@@ -399,6 +414,8 @@ def normal(case):
     case.setdefault("module", "vfmod")
     case.setdefault("modes", list(MODES))
     case.setdefault("runs", True)
+    if case.get("ref") is not None and case["ref"] not in MODES:
+        raise ValueError("malformed case")
     if case["runs"] and MARK not in case["src"]:
         raise ValueError("malformed case: a program that is expected to run must contain the argv report")
     if (
@@ -425,11 +442,14 @@ def check_case(case):
         drop_scratch(d)
     if not fails:
         return None
+    for bucket, detail, _ in fails:
+        if bucket == case.get("want"):  # a recorded failure names its bucket, so that replay and shrinking stay on that failure when the case has several
+            return bucket, detail
     return fails[0][0], fails[0][1]
 
 
 def shrink(case, same, budget):
-    budget = min(budget, 40)
+    budget = min(budget // 10, 40)  # every evaluation costs up to four interpreter start-ups: 15 (quick) / 40 (thorough) per bucket
     best = dict(case)
     used = 0
 
@@ -704,7 +724,11 @@ def shard(ctx):
                 sample = "hy %s   # program: %s" % (" ".join(json.dumps(w, ensure_ascii=False) for w in obs["file"]["cmd"][1:]), case["src"].replace("\n", " ")[:300])
                 ctx.case(key=json.dumps(case, sort_keys=True), nontrivial=nt, cls=cls, sample=sample)
                 for bucket, detail, modes in fails:
-                    ctx.fail(dict(case, modes=modes), bucket, detail)
+                    rec = dict(case, modes=[m for m in modes if not m.startswith("ref=")], want=bucket)
+                    for m in modes:
+                        if m.startswith("ref="):
+                            rec["ref"] = m[4:]
+                    ctx.fail(rec, bucket, detail)
     finally:
         drop_scratch(root)
 
